@@ -96,6 +96,7 @@ from . import protocols  # NOQA
 
 def rlc_to_mce(code):
     if isinstance(code[0], list):
+        code = code[:]
         for i, rlc in enumerate(code):
             if rlc:
                 rlc = _build_mce_rlc(rlc)
